@@ -29,8 +29,8 @@ func scenarioConfigs() []*config {
 		},
 		{
 			Name: "S1b-dedup-same-invocation", Props: core,
-			Doc:         "two clients in the same invocation (one operation, two waiters), one of them may leave; plus a do_not_cache pair",
-			Predeclared: pre0, MaxTicks: 3,
+			Doc:         "two clients in the same invocation (one operation, two waiters), one of them may leave; the clients use instance name main/x, the platform queue is registered under the strict prefix main (found by longest-prefix match)",
+			Predeclared: pre0, MaxTicks: 3, ClientInstance: "main/x",
 			Clients: []clientSpec{{Name: "c1", Calls: []string{"exec A i1"}, Cancels: 1}, {Name: "c2", Calls: []string{"exec A i1"}}},
 			Workers: []workerSpec{{Name: "w1", MaxCalls: 3, Busy: []string{"ok", "exec"}}},
 		},
@@ -83,7 +83,7 @@ func scenarioConfigs() []*config {
 		{
 			Name: "S1d-three-clients", Props: []string{"C01", "C02", "C03"},
 			Doc:         "three clients, two invocations (one of them twice), any of them may leave",
-			Predeclared: pre0, MaxTicks: 3, Bounds: b1, Shards: 8,
+			Predeclared: pre0, MaxTicks: 3, Bounds: b1, Shards: 8, ClientInstance: "main/x/y",
 			Clients: []clientSpec{
 				{Name: "c1", Calls: []string{"exec A i1"}, Cancels: 1},
 				{Name: "c2", Calls: []string{"exec A i2"}, Cancels: 1},
@@ -94,7 +94,7 @@ func scenarioConfigs() []*config {
 		{
 			Name: "S6-size-class-retry", Props: core,
 			Doc:         "predeclared size classes {1,2}; the learner may ask for a retry on the largest; a duplicate client races with failure, retry and completion",
-			Predeclared: pre12, MaxTicks: 2, RetryChoices: 2, Bounds: b1, Shards: 8,
+			Predeclared: pre12, MaxTicks: 2, RetryChoices: 2, Bounds: b1, Shards: 8, ClientInstance: "main/x",
 			Clients: []clientSpec{{Name: "c1", Calls: []string{"exec A i1"}}, {Name: "c2", Calls: []string{"exec A i2"}, Cancels: 1}},
 			Workers: []workerSpec{
 				{Name: "w1", SizeClass: 1, MaxCalls: 2, Busy: []string{"fail", "err", "ok"}},
@@ -289,6 +289,56 @@ func scenarioConfigs() []*config {
 				{Name: "c2", Stage: 1, Calls: []string{"wait c1.0"}},
 			},
 			Workers: []workerSpec{{Name: "w1", MaxCalls: 2, Busy: []string{"ok"}}},
+		},
+		{
+			Name: "S23-browse-queued-operations", Props: []string{"C01", "C06", "C14"},
+			Doc:         "three different actions queued one after the other in ONE invocation with priorities 1, 3, 2 (the invocation's queued-operations heap is then not a sorted list); an operator then clicks through every read-only BuildQueueState page (ListPlatformQueues, ListWorkers with every filter, ListDrains, ListInvocationChildren QUEUED/ACTIVE/ALL and ListQueuedOperations of every invocation, ListOperations, GetOperation), possibly twice; a worker then takes and completes the three tasks; the structural oracle runs between any two of those calls",
+			Predeclared: pre0, MaxTicks: 1, Bounds: b1, Shards: 2,
+			Clients: []clientSpec{
+				{Name: "c1", Calls: []string{"exec A i1 corr 1"}},
+				{Name: "c2", Stage: 1, Calls: []string{"exec B i1 corr 3"}},
+				{Name: "c3", Stage: 2, Calls: []string{"exec C i1 corr 2"}},
+			},
+			Operators: []operatorSpec{{Name: "op", Stage: 3, Calls: []string{"browse", "browse"}}},
+			Workers:   []workerSpec{{Name: "w1", Stage: 4, MaxCalls: 4, Busy: []string{"ok"}}},
+		},
+		{
+			Name: "S23b-browse-sibling-invocations", Props: []string{"C01", "C06", "C14"},
+			Doc:         "as S23, but the three operations belong to three sibling invocations (different correlated-invocations ids, priorities 1, 3, 2: the root's queued-children heap is not a sorted list); the operator browses once before the worker arrives",
+			Predeclared: pre0, MaxTicks: 1, Bounds: b1, Shards: 2,
+			Clients: []clientSpec{
+				{Name: "c1", Calls: []string{"exec A i1 corrA 1"}},
+				{Name: "c2", Stage: 1, Calls: []string{"exec B i2 corrB 3"}},
+				{Name: "c3", Stage: 2, Calls: []string{"exec C i3 corrC 2"}},
+			},
+			Operators: []operatorSpec{{Name: "op", Stage: 3, Calls: []string{"browse"}}},
+			Workers:   []workerSpec{{Name: "w1", Stage: 4, MaxCalls: 4, Busy: []string{"ok"}}},
+		},
+		{
+			Name: "S16b-idle-timeout-vs-handover", Props: []string{"C01", "C02", "C06"},
+			Bounds: tiny, Shards: 1,
+			Doc:         "WorkerTaskRetryCount=0. An idle worker long-polls for 2 ticks; a client's Execute starts at the very tick the poll times out: the timer's delivery, the worker's re-acquisition of the scheduler lock and the client's acquisition of it are three separate steps, so the task may be handed to the worker after its timer fired but before it is back under the lock. The worker afterwards reports what it was told (idle -> asks again; task -> completes it)",
+			Predeclared: pre0, MaxTicks: 3, IdleSync: 2, RetryZero: true,
+			Workers: []workerSpec{{Name: "w1", MaxCalls: 4, Busy: []string{"ok"}}},
+			Clients: []clientSpec{{Name: "c1", Calls: []string{"sleep 2", "exec A i1"}}},
+		},
+		{
+			Name: "S16c-idle-timeout-vs-handover-retry", Props: []string{"C01", "C02", "C06"},
+			Bounds: tiny, Shards: 1,
+			Doc:         "as S16b with WorkerTaskRetryCount=1 and a worker that may re-request the task it was given once (restart) before it completes it: the task must survive exactly one re-request per assignment",
+			Predeclared: pre0, MaxTicks: 3, IdleSync: 2,
+			Workers: []workerSpec{{Name: "w1", MaxCalls: 5, Busy: []string{"ok", "idle"}}},
+			Clients: []clientSpec{{Name: "c1", Calls: []string{"sleep 2", "exec A i1"}}},
+		},
+		{
+			Name: "S11d-background-waiter", Props: []string{"C02", "C06", "C07"},
+			Doc:         "predeclared size classes {1,2}, the learner always asks for a background run; the worker holds every task for 1 tick; at any idle moment a second client looks the background learning operation up with ListOperations and attaches to it by name with WaitExecution (it may leave again): the background task completes while that waiter is attached, or before it attaches, or after it left; in the end nothing may be retained",
+			Predeclared: pre12, MaxBackground: 1, MaxTicks: 3, BackgroundAlways: true,
+			Clients: []clientSpec{
+				{Name: "c1", Calls: []string{"exec A i1"}},
+				{Name: "c2", Stage: 1, Calls: []string{"waitbg"}, Cancels: 1},
+			},
+			Workers: []workerSpec{{Name: "w1", SizeClass: 1, MaxCalls: 3, Busy: []string{"sleep1", "ok"}}},
 		},
 		{
 			Name: "S12-crash-points", Props: []string{"C01", "C02", "C06", "C07"},
